@@ -475,18 +475,48 @@ func ruleAxesPreserved(c *Ctx, prop string) {
 				}
 			}
 		}
+		// or: ops.ReduceAxes(t, axes, (*tensor.Dense).Max) — the per-axis driver (its own contract: R34)
+		viaDriver := ""
 		if red == nil {
-			c.undecided("R9", key, c.pos(apply.Pos()), name+".Apply no longer calls gorgonia's Max/Min: unrecognised factoring")
+			for _, b := range apply.Blocks {
+				for _, in := range b.Instrs {
+					cl, ok := in.(*ssa.Call)
+					if !ok {
+						continue
+					}
+					sc := cl.Common().StaticCallee()
+					if sc == nil || fnPkgPath(sc) != pkgOps || sc.Name() != "ReduceAxes" || len(cl.Common().Args) != 3 {
+						continue
+					}
+					if fv, ok := stripConv(cl.Common().Args[2]).(*ssa.Function); ok && fnPkgPath(fv) == pkgTensor {
+						red, viaDriver = cl, strings.TrimSuffix(fv.Name(), "$thunk")
+					} else if mc, ok := cl.Common().Args[2].(*ssa.MakeClosure); ok {
+						if fv, ok := mc.Fn.(*ssa.Function); ok {
+							red, viaDriver = cl, "closure "+fv.Name()
+						}
+					}
+				}
+			}
+		}
+		if red == nil {
+			c.undecided("R9", key, c.pos(apply.Pos()), name+".Apply no longer calls gorgonia's Max/Min (directly or through ops.ReduceAxes): unrecognised factoring")
 			continue
 		}
 		// the reduction is the operator's own: ReduceMax -> Max, ReduceMin -> Min
-		if nm, _ := tensorMethod(red); "Reduce"+nm != name {
+		nm, _ := tensorMethod(red)
+		if viaDriver != "" {
+			nm = viaDriver
+		}
+		if "Reduce"+nm != name {
 			c.violate("R9", "R9e:"+name+":kernel", c.pos(red.Pos()), name+" reduces with gorgonia's "+nm+"(): the sibling operator's reduction")
 		} else {
 			c.discharge("R9", "R9e:"+name+":kernel", c.pos(red.Pos()), name+" reduces with "+nm+"()")
 		}
 		args := red.Common().Args
 		s := args[len(args)-1]
+		if viaDriver != "" {
+			s = args[1]
+		}
 		ok, why := false, "the axes list handed to the reduction is not built with one entry per requested axis"
 		switch x := s.(type) {
 		case *ssa.UnOp:
